@@ -68,3 +68,11 @@ Example C02_witness :
   map snd [step cfg (run cfg init ops) (OFin 2 5); step cfg (run cfg init ops) (ODeliver 2 5 3%Z);
            step cfg (run cfg init ops) (OFin 1 5)] = [RFailed; RNotEnabled; ROk].
 Proof. split; vm_compute; reflexivity. Qed.
+
+(* The model is tied to the CURRENT source: the order-of-effects facts about nsqd's core
+   functions that the model assumes (proofs/CoreSrcDefs.v) hold of the statement skeletons
+   regenerated from /repo on this run (gen/CoreShape.v). *)
+From NSQV Require proofs.CoreSrcDefs proofs.CoreSrcC02.
+Theorem C02_source_shape : CoreSrcDefs.src_facts_C02.
+Proof. exact CoreSrcC02.src_C02. Qed.
+Print Assumptions C02_source_shape.
